@@ -148,6 +148,18 @@ func (pq *PrefetchQueue) processPrefetch(req PrefetchRequest) {
 	// from the copy (it is the cache key and the validation opt-out).
 	if opt := prefetchReq.IsEdns0(); opt != nil {
 		opt.SetDo(true)
+		// Only shared (unscoped) entries are prefetch-eligible, and the
+		// refresh is written back into that shared slot. The triggering
+		// client's (clamped) ECS option must not ride along: an authority
+		// would tailor the refresh to that one subnet and the tailored
+		// answer would then be served to every audience (RFC 7871 §7.3.1).
+		kept := opt.Option[:0:0]
+		for _, o := range opt.Option {
+			if _, isECS := o.(*dns.EDNS0_SUBNET); !isECS {
+				kept = append(kept, o)
+			}
+		}
+		opt.Option = kept
 	} else {
 		prefetchReq.SetEdns0(dnsutil.DefaultMsgSize, true)
 	}
